@@ -253,6 +253,8 @@ pub struct ScriptedBody {
     pub chunked: bool,
     pub flush_every: usize,
     pub calls: usize,
+    /// the body's source fails at this write call (1-based; 0 = never): write() returns an error
+    pub fail_at: usize,
 }
 impl attohttpc::body::Body for ScriptedBody {
     fn kind(&mut self) -> io::Result<attohttpc::body::BodyKind> {
@@ -262,6 +264,9 @@ impl attohttpc::body::Body for ScriptedBody {
         self.calls += 1;
         let mut off = 0;
         for (i, &n) in self.writes.iter().enumerate() {
+            if self.fail_at == i + 1 {
+                return Err(io::Error::other("body source failed"));
+            }
             let n = n.min(self.data.len() - off);
             // `write` (one call) for the scripted sizes: a streaming body may hand over any slice, also an empty one
             let mut done = 0;
@@ -279,6 +284,9 @@ impl attohttpc::body::Body for ScriptedBody {
             if self.flush_every > 0 && i % self.flush_every == 0 {
                 w.flush()?;
             }
+        }
+        if self.fail_at == self.writes.len() + 1 {
+            return Err(io::Error::other("body source failed"));
         }
         if off < self.data.len() {
             w.write_all(&self.data[off..])?;
@@ -618,7 +626,8 @@ pub fn run(sc: &Value) -> Vec<String> {
             }
             _ => {
                 let writes: Vec<usize> = ga(&body_spec, "writes").iter().map(|x| x.as_u64().unwrap() as usize).collect();
-                let sb = ScriptedBody { data: payload("bytes", seed, len), writes, chunked: gb(&body_spec, "chunked"), flush_every: gu(&body_spec, "flush_every"), calls: 0 };
+                let sb = ScriptedBody { data: payload("bytes", seed, len), writes, chunked: gb(&body_spec, "chunked"), flush_every: gu(&body_spec, "flush_every"), calls: 0,
+                    fail_at: gu(&body_spec, "fail_at") };
                 fin(rb.body(sb))
             }
         }
@@ -646,6 +655,9 @@ pub fn run(sc: &Value) -> Vec<String> {
     let defaults = json!({"kind": if gs(&body_spec, "kind").is_empty() { "empty" } else { gs(&body_spec, "kind") },
         "before": lower_ops(ga(req, "headers")), "after": lower_ops(ga(req, "headers_after")),
         "compress": settings.get("compress").and_then(|x| x.as_bool()).unwrap_or(true),
+        // a user-defined body whose source fails at a write call: what it had handed over before
+        "bodyFails": gu(&body_spec, "fail_at") > 0,
+        "failSent": ga(&body_spec, "writes").iter().take(gu(&body_spec, "fail_at").saturating_sub(1)).map(|x| x.as_u64().unwrap() as usize).sum::<usize>().min(gu(&body_spec, "len")),
         "session": req.get("session_headers").is_some()});
     let reset_ev = json!({"ev":"reset","id":gs(sc,"id"),"req":req_ev,"settings":settings,"nodes":nodes,"bodyLen":expected_body.len(),"connect":connect_policy,"defaults":defaults});
     out.push(reset_ev.to_string());
